@@ -135,6 +135,30 @@ HTextDemands(e) ==
                          VerOf(e.la.v) = (IF cmp(A) = 1 THEN p(e.a, A).v ELSE p(e.b, A).v)>>
   >>
 
+\* C18 at the scale of megabytes.  The input of a "giant" event is sa ++ unit^n ++ sb (comparison:
+\* a = unit^n ++ sa against b = unit^n ++ sb); the limit the call ran under is part of the event.
+\* The comparison result follows from the cancellation law of the section-11 order (MC_C06, Order):
+\* unit is a sequence of whole identifiers, so PreCmp11(a, b) = PreCmp11(sa, sb).
+\* Cost: the call must not have grown its goroutine stack by 64 MiB or more, nor allocated 64 bytes
+\* or more per input byte ("never a runaway allocation"); the code needs constant stack and below
+\* 16 bytes per byte on every shape the drivers use.
+GiantDemands(e) ==
+  LET len == IF e.pkg = "sem.cmp" THEN e.n * Len(e.unit) + Len(e.sa) ELSE Len(e.sa) + e.n * Len(e.unit) + Len(e.sb)
+      isCmp == e.pkg = "sem.cmp"
+      over == e.max > 0 /\ len > e.max
+      wholeIds == Len(e.unit) > 1 /\ e.unit[Len(e.unit)] = Dot /\ IsPre(SubSeq(e.unit, 1, Len(e.unit) - 1)) /\ IsPre(e.sa) /\ IsPre(e.sb) /\ ~Departure(e.sa, e.sb)
+  IN <<
+    <<"H.giant",          e.len = len /\ (isCmp => wholeIds)>>,
+    <<"C18.nopanic",      ~e.panic>>,
+    <<"C18.giant_limit",  (~isCmp /\ over) => (~e.ok /\ e.long)>>,
+    <<"C18.noecho",       (~isCmp /\ over) => ~e.echo>>,
+    <<"C18.notlong",      (~isCmp /\ ~over) => ~e.long>>,
+    <<"C18.giant_cmp",    (isCmp /\ ~e.panic) => \A k \in 1..Len(e.res) : e.res[k] = PreCmp11(e.sa, e.sb)>>,
+    <<"C18.giant_roman",  (e.pkg = "roman" /\ ~over /\ e.unit = <<77>> /\ e.sa = <<>> /\ e.sb = <<>>) => (e.ok /\ e.okv = e.n)>>,
+    <<"C18.giant_stack",  e.stackmb < 64>>,
+    <<"C18.giant_alloc",  e.allocx < 64>>
+  >>
+
 SemStep(e) ==
   CASE e.op = "sem.set" -> SemSetMax(e.max) /\ Note(<<>>)
     [] e.op = "sem.univ" -> SemSetUniverse(e.u)
@@ -146,6 +170,7 @@ SemStep(e) ==
     [] e.op = "sem.cmp" -> SemCompare(VerOf(e.a), VerOf(e.b)) /\ Note(CmpDemands2(e))
     [] e.op = "sem.next" -> UNCHANGED svars /\ Note(NextDemands(e))
     [] e.op = "sem.htext" -> UNCHANGED svars /\ Note(HTextDemands(e))
+    [] e.op = "giant" -> UNCHANGED svars /\ Note(GiantDemands(e))
 
-IsSemOp(e) == e.op \in {"sem.utext", "sem.set", "sem.univ", "sem.parse", "sem.valid", "sem.row", "sem.cmp", "sem.next", "sem.htext"}
+IsSemOp(e) == e.op \in {"sem.utext", "sem.set", "sem.univ", "sem.parse", "sem.valid", "sem.row", "sem.cmp", "sem.next", "sem.htext", "giant"}
 =============================================================================
